@@ -97,11 +97,21 @@ func stubIntrinsic(in *Interp, th *Thread, fn *ssa.Function, a []Value) (Value, 
 		return nil, stDone
 	case "symWaitUntil":
 		pred := a[0].(FuncV)
-		if !in.visible(th, th.top(), "symWaitUntil", func() bool {
+		if !in.visible(th, th.top(), "symWaitUntil", func() (res bool) {
 			// evaluated on a scratch thread so that the waiting thread's stack is untouched
 			scratch := &Thread{id: -1, name: "waituntil"}
 			saved := in.cur
 			in.cur = scratch
+			defer func() {
+				if r := recover(); r != nil {
+					if _, ok := r.(waitBlocked); ok {
+						in.cur = saved
+						res = false // the predicate needs a lock that is held: not enabled now
+						return
+					}
+					panic(r)
+				}
+			}()
 			r := in.callSync(scratch, pred, nil)
 			in.cur = saved
 			t := r.(*Term)
